@@ -174,6 +174,11 @@ public:
   {
     if (list.endItem.prev == 0)
       return position;
+    if (&list == this)
+    { // the loop below would walk into the items it inserts
+      List copy(list);
+      return insert(position, copy);
+    }
     Iterator pos = position;
     Iterator result = insert(pos, list._begin.item->value);
     for(const Item* i = list._begin.item->next, * end = &list.endItem; i != end; i = i->next)
